@@ -79,33 +79,34 @@ _CC_TUS = ['src/cppparser/cppPreprocessor.cxx', 'src/cppparser/cppFile.cxx', 'sr
 # stub asserts if it were ever reached
 _CUT_HEAP_STRINGS = ['_ZNSt7__cxx1112basic_stringIcSt11char_traitsIcESaIcEE9_M_createERmm',
                      '_ZNSt7__cxx1112basic_stringIcSt11char_traitsIcESaIcEE9_M_mutateEmmPKcm']
-# the lexer's loops nest (tokens x blanks x comment bytes); each gets the exact bound the stated input shape implies
-def _cc_loops(nmax, cmax):
-    return {'_ZN15CPPPreprocessor16skip_cpp_commentEi.0': cmax + 2,     # text bytes of one comment line
-            '_ZN15CPPPreprocessor12skip_commentEi.0': 2,                # iterates only after a C comment (never here)
-            '_ZN15CPPPreprocessor15skip_whitespaceEi.0': nmax + 4}      # one round per blank byte or comment
-def _cc(hid, hflags, desc, domain_extra, q, t):
+def _cc_tuples(lines, wmax, nmax):
+    """number of width tuples the harness enumerates (same odometer, same filter)"""
+    import itertools
+    return sum(1 for w in itertools.product(range(wmax + 1), repeat=lines) if sum(w) <= nmax)
+def _cc(hid, hflags, desc, domain_extra, lo, hi, tiers=('quick', 'thorough')):
     return {'id': hid, 'property': 'C05', 'src': 'c05_cpp_comments.cxx', 'entry': 'harness_c05_cpp_comments', 'tus': _CC_TUS,
             'skip_ctors': ['cppPreprocessor.cxx', 'cppFile.cxx', 'filename.cxx'],
-            # CPPPreprocessor::get: copy without `delete infile`; InputFile::get/peek: copies reading a byte array (all in the harness)
+            # CPPPreprocessor::get, InputFile::get/peek: copies reading a byte array (in the harness, see there)
             'cut': _CUT_HEAP_STRINGS + ['_ZN15CPPPreprocessor3getEv', '_ZN15CPPPreprocessor9InputFile3getEv', '_ZN15CPPPreprocessor9InputFile4peekEv',
-                                         '_ZN15CPPPreprocessor14skip_c_commentEi'],   # never reached: no '*' in the alphabet (asserting stub)
-            'models': ['list.c', 'noinline.c'], 'tuflags': ['-fno-inline'], 'hflags': list(hflags),
+                                         '_ZN15CPPPreprocessor14skip_c_commentEi',    # never reached: no '*' in the alphabet (asserting stub)
+                                         # std::string::_M_replace: see the harness source
+                                         '_ZNSt7__cxx1112basic_stringIcSt11char_traitsIcESaIcEE10_M_replaceEmmPKcm'],
+            'models': ['list.c', 'noinline.c'], 'tuflags': ['-fno-inline'], 'hflags': list(hflags), 'tiers': tiers,
             'desc': desc,
-            'domain': 'every input of n <= NMAX bytes over {/ a space newline} followed by a final newline, with at most TOKMAX code bytes '
-                      '(neither blank nor in a comment) and at most CMAX bytes after a // on its line' + domain_extra +
-                      ', read through line-by-line copies of InputFile::get/peek (line and column accounting) over a byte array and '
-                      'lexed by the real skip_whitespace / skip_comment / skip_cpp_comment, one token per non-blank non-comment byte',
+            'domain': 'inputs of 3 newline-terminated lines: the line widths are concrete (width tuples %d..%d of the %d tuples with widths 0..4 '
+                      'and at most 8 bytes in total, enumerated by a concrete loop inside the query), the bytes of the lines symbolic over '
+                      '{/ a space}' % (lo, hi - 1, _cc_tuples(3, 4, 8)) + domain_extra + '; read through line-by-line copies of InputFile::get/peek '
+                      '(line and column accounting) over a byte array and lexed by the real skip_comment / skip_cpp_comment, one token per '
+                      'non-blank non-comment byte',
             'oracle': 'the captured CPPCommentBlocks equal an independent scan of the bytes: a // line continues the previous block iff '
                       'that block ended on the immediately preceding line and only blanks lie in between, otherwise it starts a new '
                       'block; number of blocks, text, first and last line and column of every block',
-            'bounds': {'quick': {'defs': {'NMAX': q, 'TOKMAX': 2, 'CMAX': 2}, 'unwind': q + 6, 'unwindset': _cc_loops(q, 2), 'cap': 600},
-                       'thorough': {'defs': {'NMAX': t, 'TOKMAX': 3, 'CMAX': 3}, 'unwind': t + 6, 'unwindset': _cc_loops(t, 3), 'cap': 3000}}}
+            'bounds': {'quick': {'defs': {'LINES': 3, 'WMAX': 4, 'NMAX': 8, 'S_FROM': lo, 'S_TO': hi}, 'unwind': 20,
+                                 'unwindset': {'_ZN15CPPPreprocessor12skip_commentEi.0': 1, 'harness_c05_cpp_comments.1': 130}, 'cap': 60}}}
 HARNESSES += [
- _cc('c05_cpp_comments', [], 'capture of // comment blocks (CPPPreprocessor::skip_cpp_comment): block boundaries, text and line span', '', 7, 9),
  _cc('c05_cpp_comments_rest', ['-DEXCLUDE_EMPTY_COMMENT'],
-     'as c05_cpp_comments without empty // comments (a // directly followed by the end of its line)',
-     ' in which every // is followed by at least one more byte on its line', 7, 9),
+     'capture of // comment blocks (CPPPreprocessor::skip_cpp_comment under the real skip_comment): block boundaries, text and line '
+     'span; without empty // comments', ', no // directly followed by the end of its line', 2, 3),
 ]
 
 PROPERTY_INFO = {'C05': {'level': 'model_checking',
